@@ -115,6 +115,17 @@ fn queue_action(w: &mut W, ex: &mut Exp, pos: u8, kind: u8, t: usize) -> (Option
         // a lazily built entity with a component (kind 6: its deletion is requested before
         // maintain, kind 7: it is deleted at once - so the queued insertion must be skipped)
         _ => {
+            // the index the next atomic creation takes, read from the allocator BEFORE the creation
+            // (last entry of the free list, else the next unused index)
+            let next: usize = {
+                let ents = w.world.entities();
+                let n = ents.verif_cache_len();
+                if n > 0 {
+                    ents.verif_cache()[n - 1] as usize
+                } else {
+                    ents.verif_max_id()
+                }
+            };
             let e = {
                 let ents = w.world.entities();
                 let lazy = w.world.read_resource::<LazyUpdate>();
@@ -123,21 +134,15 @@ fn queue_action(w: &mut W, ex: &mut Exp, pos: u8, kind: u8, t: usize) -> (Option
             assert!(w.world.entities().is_alive(e), "C09/C02: a lazily built entity is not alive for its creator");
             if kind >= 6 {
                 // The deletion is requested through a copy of the handle rebuilt with the index
-                // the HARNESS expects from the (concrete) liveness pattern: the free list holds
-                // the dead indices in ascending order and atomic creation takes its last entry.
+                // the allocator's own state predicts (`next`, read before the creation: the last
+                // entry of the free list, else the next unused index).
                 // The index that comes out of the allocator's `Option`-returning free-list pop is
                 // not a constant for the symbolic executor, and a deferred delete with a symbolic
                 // index costs > 12 GB. The expectation is an ASSUMPTION (a different but legal
                 // choice of index makes the query vacuous, which the end witness reports as a
                 // broken check, never as a violation).
-                let mut c = NI;
-                for i in 0..NI {
-                    if !w.st[i].occupied() {
-                        c = i;
-                    }
-                }
-                let g = if c < NI { w.st[c].mag() + 1 } else { 1 };
-                let ec = Entity::verif_new(c as Index, g);
+                let c = next;
+                let ec = Entity::verif_new(c as Index, e.gen().id());
                 nd::assume(ec == e);
                 if kind == 6 {
                     let r = w.world.entities().delete(ec);
